@@ -25,6 +25,16 @@
     that: C13_certified, C13_size_partial, C13_atmost_partial.
   * product: C13_product (table of `__mul_ttcfg__` = intersection, outright),
     C13_product_sound (after `clean`, outright), C13_product_certified (after `clean`, equality).
+  * THE CONSTRUCTION ITSELF (second half of the file): the worklist closes and is exact
+    (C13_saturation_closed / _complete / _exact), `clean()` preserves the language (C13_clean_lang) and
+    guarantees exactly "first arguments kept" (C13_clean_first; the rest is finding C13-F5, proved
+    unrepairable by rule removal: finding_C13_F5_no_repair), `programs()` = size of the language of
+    every table (C13_programs), constructed grammars are typed (C13_product_constructed needs no
+    certificate); TOTAL CORRECTNESS with explicit fuel: C13_clean_terminates, C13_programs_terminates,
+    C13_size_total, C13_atmost_total_partial (hypothesis uncountedRanked; finding_C13_F9: finite
+    language, construction never returns), C13_product_terminates, C13_product_size_total;
+    type request: C13_type_request_size / _atmost / _product.  The certificate theorems below
+    (`_partial`, `_certified`) are kept: they hold for ANY table, whatever produced it.
   * clean tables: `closedOK` (verified checker) ⇒ every partial derivation can be completed
     (C13_clean) and `programs()` = size of the language (C13_count); `clean` adds no program
     (C13_clean_sound).
@@ -45,6 +55,11 @@ import PS.Proofs.TtcfgCountS
 import PS.Proofs.TtcfgNoRepair
 import PS.Proofs.TtcfgCleanFirst
 import PS.Proofs.TtcfgBuildExact
+import PS.Proofs.TtcfgTotal
+import PS.Proofs.TtcfgAtMostTerm
+import PS.Proofs.TtcfgAtMostDiverge
+import PS.Proofs.TtcfgTyped
+import PS.Proofs.TtcfgMulTerm
 namespace PS.T
 open PS PS.G
 
@@ -873,5 +888,272 @@ open Ex in
     that `clean` removes later -/
 example : ((saturationTable (sizeBuilder small 2 3 true) small.prims int true 100).map (fun G =>
     AList.contains S0 G.rules && AList.contains A G.rules && AList.contains B G.rules)) = some true := by decide +kernel
+
+/-! ## TOTAL CORRECTNESS: the construction returns, within explicit fuel -/
+
+/-- **`clean()` terminates** on every table whose machine of partial derivations has a rank (a
+    function of (non-terminal, pending stack) decreasing along every step `clean()` follows; pass 1
+    and the inner passes de-duplicate nothing, so on a recursive table they do not end): with
+    `fuel ≥ satBound b (rk start) + |rules| + 1` (`b` = longest row; at most `|non-terminals| + 1`
+    passes: a pass that reports a change removed a non-terminal) the model returns a table. -/
+theorem C13_clean_terminates {S T : Type} [DecidableEq S] [DecidableEq T] (G : TT S T) (b : Nat)
+    (hb : ∀ e ∈ G.rules, e.2.length ≤ b) (hr : rowsNodup G = true)
+    (rk : CConfig S T → Nat) (hdec : ∀ c d, CStep G c d → rk d < rk c)
+    (hs : inRules G G.start = true) (fuel : Nat)
+    (hf : satBound b (rk (G.start, [])) + G.rules.length + 1 ≤ fuel) : ∃ G', clean G fuel = .ok G' :=
+  clean_terminates G b hb hr rk hdec hs fuel hf
+
+/-- **`programs()` terminates on non-recursive tables**: if `(m, ρ)` ranks the table (`m` never
+    grows from a non-terminal's state to the state of one of its rules, `ρ` decreases from a
+    non-terminal to the argument slots of its rules and is monotone in `m`), the recursion of
+    `__compute__` is at most `ρ start + 2` deep. -/
+theorem C13_programs_terminates {S T : Type} [DecidableEq S] [DecidableEq T] (G : TT S T) (hU : noUnknownKey G = true)
+    (m : T → Nat) (ρ : Ty × S → T → Nat) (hR : Ranked G m ρ) (fuel : Nat)
+    (hf : ρ (G.start.1, G.start.2.1) G.start.2.2 + 2 ≤ fuel) : (programsR G fuel).isSome = true :=
+  programsR_terminates G hU m ρ hR fuel hf
+
+/-- **`TTCFG.size_constraint`, total correctness** (the code as it is now): for EVERY DSL (a list of
+    primitives without `UnknownType` arguments), request, bound `k` and n-gram width ≥ 2 or unbounded,
+    with `fuel ≥ sizeFuel = 2·(1 + b + … + b^(k+1)) + k + 3` (`b` = variables + primitives) the model
+    of the constructor RETURNS a grammar `g`; it reports the request it was compiled for, contains
+    exactly the well-typed programs with at most `k` nodes and no forbidden pattern, and `programs()`
+    returns their number. -/
+theorem C13_size_total (dsl : Dsl) (hwf : wfDsl dsl = true) (request : Ty) (hU : noUnknownDsl dsl request = true)
+    (k : Nat) (nG : Int) (hn : nG ≥ 2 ∨ nG < 0) (fuel : Nat) (hf : sizeFuel dsl request k ≤ fuel) :
+    ∃ g : TTG Ctx (Nat × Nat), sizeConstraint dsl request k nG true true fuel = .ok g ∧ g.typeRequest = request ∧
+      (∀ t, PS.G.contains g.G t = Sized dsl request k t) ∧
+      ∃ (n : Nat) (L : List Prog), programsR g.G fuel = some n ∧ L.Nodup ∧ n = L.length ∧
+        ∀ t, t ∈ L ↔ Sized dsl request k t = true := by
+  obtain ⟨G0, G, h0, h1, h2⟩ := size_total dsl request hU nG k true true fuel hf
+  have hg : sizeConstraint dsl request k nG true true fuel = .ok ⟨G, request⟩ := by
+    unfold sizeConstraint; rw [h0]; simp only; rw [h1]
+  refine ⟨⟨G, request⟩, hg, rfl, C13_size dsl hwf request hU k nG hn fuel _ hg, ?_⟩
+  cases hp : programsR G fuel with
+  | none => rw [hp] at h2; cases h2
+  | some n =>
+    obtain ⟨L, l1, l2, l3⟩ := C13_count_size dsl hwf request hU k nG hn fuel _ hg fuel n hp
+    exact ⟨n, L, rfl, l1, l2, l3⟩
+
+open Ex in
+/-- non-vacuity: {+, 1} / int / 3 nodes: `sizeFuel` = 2·31 + 6 = 68, and with that fuel the constructor
+    returns a grammar with 2 programs -/
+example : sizeFuel small int 3 = 68 ∧ wfDsl small = true ∧ noUnknownDsl small int = true ∧
+    onTable (sizeConstraint small int 3 2 true true 68) (fun G => programsR G 68 == some 2) = true := by decide +kernel
+
+/-! ### `at_most_k`: when the construction terminates -/
+
+/-- **`TTCFG.at_most_k`, total correctness under `uncountedRanked`** (decidable, with a ranking of
+    the types as certificate: every primitive that is NOT the counted one takes, at every slot, only
+    arguments of strictly smaller rank than the slot - the dependency graph of the types through the
+    uncounted primitives - partial applications included - is acyclic; `spendAll` is the case of the empty ranking,
+    `uncountedRanked_of_spendAll`).  With `fuel ≥ atMostFuel` the model of the constructor RETURNS a
+    grammar that reports its request, contains exactly the well-typed programs with at most `k`
+    occurrences of the primitive and no forbidden pattern, and `programs()` returns their number.
+    Full statement (false on the code, `finding_C13_F9`): the same whenever the language is finite. -/
+theorem C13_atmost_total_partial (dsl : Dsl) (hwf : wfDsl dsl = true) (request : Ty) (hU : noUnknownDsl dsl request = true)
+    (name : String) (k : Nat) (nG : Int) (hn : nG ≥ 2 ∨ nG < 0) (rkT : AList Ty Nat)
+    (hur : uncountedRanked dsl name rkT = true) (fuel : Nat) (hf : atMostFuel dsl request k rkT ≤ fuel) :
+    ∃ g : TTG Ctx Nat, atMostK dsl request name k nG true fuel = .ok g ∧ g.typeRequest = request ∧
+      (∀ t, PS.G.contains g.G t = AtMostOcc dsl request name k t) ∧
+      ∃ (n : Nat) (L : List Prog), programsR g.G fuel = some n ∧ L.Nodup ∧ n = L.length ∧
+        ∀ t, t ∈ L ↔ AtMostOcc dsl request name k t = true := by
+  obtain ⟨G0, G, h0, h1, h2⟩ := atMost_total dsl request hU nG name k rkT hur true fuel hf
+  have hg : atMostK dsl request name k nG true fuel = .ok ⟨G, request⟩ := by
+    unfold atMostK; rw [h0]; simp only; rw [h1]
+  refine ⟨⟨G, request⟩, hg, rfl, C13_atmost dsl hwf request hU name k nG hn fuel _ hg, ?_⟩
+  cases hp : programsR G fuel with
+  | none => rw [hp] at h2; cases h2
+  | some n =>
+    obtain ⟨L, l1, l2, l3⟩ := C13_count_atmost dsl hwf request hU name k nG hn fuel _ hg fuel n hp
+    exact ⟨n, L, rfl, l1, l2, l3⟩
+
+open Ex in
+/-- non-vacuity: arithmetic with `+` counted (at most 2): the empty ranking is a certificate, the
+    fuel bound is met and the constructor returns -/
+example : uncountedRanked small "+" [] = true ∧ atMostFuel small int 1 [] ≤ 200 ∧
+    onTable (atMostK small int "+" 1 2 true 200) (fun G => programsR G 200 == some 2) = true := by decide +kernel
+
+open Ex in
+/-- non-vacuity with a non-trivial ranking: f : a → b → c, g : a → d → c, h : x → a uncounted, `x0` counted -/
+example : uncountedRanked sib "x0" [(c, 2), (fn [b] c, 2), (fn [d] c, 2), (a, 1)] = true ∧ spendAll sib "x0" = false := by decide +kernel
+
+/-- **non-termination criterion for the worklist** (keyed by rule and pending stack): if
+    configurations with arbitrarily long pending stacks are reachable by its pushes, the loop never
+    ends - the model runs out of every fuel. -/
+theorem C13_saturation_diverges {S T : Type} [DecidableEq S] [DecidableEq T] (B : Builder S T) (prims : List Sym)
+    (request : Ty) (h : ∀ n : Nat, ∃ c, SReach B prims request c ∧ n ≤ c.2.length) :
+    ∀ fuel, saturationTable B prims request true fuel = none :=
+  not_terminates_of_unbounded B prims request h
+
+open Ex.Dv in
+/-- **finding C13-F9**: `TTCFG.at_most_k(dsl, a, "l", 1)` over g : a → a → a, l : a.  The
+    occurrence-bounded language is FINITE - it is the single program `l` (`(g l l)` already needs two
+    occurrences) - but the construction never returns: `g` can be derived again and again without
+    spending an occurrence, every time with a longer pending stack.  (On the real code: the call does
+    not return; before 6d9766e the worklist ended and `clean()` did not.) -/
+theorem finding_C13_F9 :
+    (∀ t, AtMostOcc dsl a "l" 1 t = true ↔ t = .node l []) ∧
+    (∀ rkT, uncountedRanked dsl "l" rkT = false) ∧
+    ∀ fuel, (match atMostK dsl a "l" 1 2 true fuel with
+      | .fuel => true
+      | _ => false) = true := by
+  refine ⟨dv_language, ?_, ?_⟩
+  · intro rkT
+    cases h : uncountedRanked dsl "l" rkT with
+    | false => rfl
+    | true =>
+      exfalso
+      unfold uncountedRanked at h
+      rw [List.all_eq_true] at h
+      have := h g (by decide)
+      have hs : symStr g ≠ "l" := by decide
+      simp only [hs, decide_false, Bool.false_or, List.all_eq_true] at this
+      have h2 := this ([a, a], a) (by decide)
+      simp at h2
+  · intro fuel
+    unfold atMostK
+    rw [dv_diverges fuel]
+
+/-! ### type request -/
+
+/-- **the product reports the type request of its factors** (`grammar.type_request =
+    self.type_request`, 26a6c4e; the factors' requests are asserted equal) -/
+theorem C13_type_request_product {S T U V : Type} [DecidableEq S] [DecidableEq T] [DecidableEq U] [DecidableEq V]
+    (g1 : TTG S T) (g2 : TTG U V) (hreq : g1.typeRequest = g2.typeRequest) (fuel : Nat) (g : TTG (S × U) (T × V))
+    (h : mulTTG g1 g2 fuel = .ok g) : g.typeRequest = g1.typeRequest ∧ g.typeRequest = g2.typeRequest := by
+  unfold mulTTG at h
+  split at h
+  · cases h; exact ⟨rfl, hreq⟩
+  · cases h
+  · cases h
+
+/-- **products of constructed grammars, no certificate**: for two grammars built by
+    `__saturation_build__` + `clean()` (any two builders - size, occurrences -, the right one possibly
+    over another DSL) for the same request, `g1 * g2` contains exactly the programs common to both.
+    The hypotheses `ArgsAgree` / `typedOK` / `noUnknownKey` of `C13_product_clean`, which the check
+    used to evaluate per case on the factor tables, are PROVED for constructed grammars
+    (`saturation_typedOK`, `clean_typedOK`, `clean_countHyps`). -/
+theorem C13_product_constructed {S T U V : Type} [DecidableEq S] [DecidableEq T] [DecidableEq U] [DecidableEq V]
+    (B1 : Builder S T) (B2 : Builder U V) (dsl1 dsl2 : Dsl) (request : Ty) (hd : noUnknownDsl dsl1 request = true)
+    (f1 f2 : Nat) (G01 G1 : TT S T) (G02 G2 : TT U V)
+    (s1 : saturationTable B1 dsl1.prims request true f1 = some G01) (c1 : clean G01 f1 = .ok G1)
+    (s2 : saturationTable B2 dsl2.prims request true f2 = some G02) (c2 : clean G02 f2 = .ok G2)
+    (hd2 : noUnknownDsl dsl2 request = true)
+    (fuel : Nat) (G : TT (S × U) (T × V)) (h : cleanFixed (mulRaw G1 G2) fuel = .ok G) (t : Prog) :
+    PS.G.contains G t = (PS.G.contains G1 t && PS.G.contains G2 t) := by
+  obtain ⟨_, u1, a1⟩ := saturation_countHyps B1 dsl1 request true f1 G01 hd s1
+  obtain ⟨_, u2, _⟩ := saturation_countHyps B2 dsl2 request true f2 G02 hd2 s2
+  have t1 := clean_typedOK G01 G1 u1 f1 c1 (saturation_typedOK B1 dsl1.prims request true f1 G01 s1)
+  have t2 := clean_typedOK G02 G2 u2 f2 c2 (saturation_typedOK B2 dsl2.prims request true f2 G02 s2)
+  have k1 := (clean_countHyps G01 G1 u1 a1 f1 c1).2.1
+  have hty : G1.start.1 = G2.start.1 := by
+    rw [clean_start G01 G1 f1 c1, clean_start G02 G2 f2 c2,
+      (saturationTable_spec B1 dsl1.prims request true f1 G01 s1).1,
+      (saturationTable_spec B2 dsl2.prims request true f2 G02 s2).1]
+    rfl
+  exact C13_product_cleanFixed G1 G2 (argsAgree_of_typed G1 G2 t1 t2) hty k1 fuel G h t
+
+/-- … in particular for two size-bounded grammars: the product reports `request` and is the intersection -/
+theorem C13_product_total (dsl : Dsl) (request : Ty) (hd : noUnknownDsl dsl request = true) (k1 k2 : Nat) (nG : Int) (fuel : Nat)
+    (g1 g2 : TTG Ctx (Nat × Nat)) (h1 : sizeConstraint dsl request k1 nG true true fuel = .ok g1)
+    (h2 : sizeConstraint dsl request k2 nG true true fuel = .ok g2) (fuel' : Nat)
+    (g : TTG (Ctx × Ctx) ((Nat × Nat) × (Nat × Nat))) (h : mulTTG g1 g2 fuel' = .ok g) :
+    g.typeRequest = request ∧ ∀ t, PS.G.contains g.G t = (PS.G.contains g1.G t && PS.G.contains g2.G t) := by
+  have r1 := C13_type_request_size dsl request k1 nG true true fuel g1 h1
+  unfold sizeConstraint at h1 h2
+  cases s1 : saturationTable (sizeBuilder dsl nG k1 true) dsl.prims request true fuel with
+  | none => simp [s1] at h1
+  | some G01 =>
+    simp only [s1] at h1
+    cases c1 : clean G01 fuel with
+    | ok G1 =>
+      simp only [c1, Res.ok.injEq] at h1
+      cases s2 : saturationTable (sizeBuilder dsl nG k2 true) dsl.prims request true fuel with
+      | none => simp [s2] at h2
+      | some G02 =>
+        simp only [s2] at h2
+        cases c2 : clean G02 fuel with
+        | ok G2 =>
+          simp only [c2, Res.ok.injEq] at h2
+          subst h1; subst h2
+          unfold mulTTG at h
+          cases hc : cleanFixed (mulRaw G1 G2) fuel' with
+          | ok G =>
+            simp only [hc, Res.ok.injEq] at h
+            subst h
+            exact ⟨rfl, fun t => C13_product_constructed _ _ dsl dsl request hd fuel fuel G01 G1 G02 G2 s1 c1 s2 c2 hd fuel' G hc t⟩
+          | fuel => simp [hc] at h
+          | keyError => simp [hc] at h
+        | fuel => simp [c2] at h2
+        | keyError => simp [c2] at h2
+    | fuel => simp [c1] at h1
+    | keyError => simp [c1] at h1
+
+open Ex in
+/-- non-vacuity: size ≤ 3 times size ≤ 1 over {+, 1}: the product object exists, reports `int`, contains `1` only -/
+example : (match sizeConstraint small int 3 2 true true 100, sizeConstraint small int 1 2 true true 100 with
+    | .ok g1, .ok g2 => (match mulTTG g1 g2 100 with
+        | .ok g => g.typeRequest == int && PS.G.contains g.G (leaf one) && !(PS.G.contains g.G (.node plus [leaf one, leaf one]))
+        | _ => false)
+    | _, _ => false) = true := by decide +kernel
+
+/-- **`clean()` returns on the product table**: the machine of `__mul_ttcfg__`'s table projects onto
+    the machine of the left factor, so a rank of the left factor's machine bounds pass 1 and every
+    inner pass; at most `|rules1|·|rules2| + 1` passes. -/
+theorem C13_product_terminates {S T U V : Type} [DecidableEq S] [DecidableEq T] [DecidableEq U] [DecidableEq V]
+    (G1 : TT S T) (G2 : TT U V) (hag : ArgsAgree G1 G2) (b : Nat)
+    (hb : ∀ e ∈ G1.rules, e.2.length ≤ b) (hr1 : rowsNodup G1 = true)
+    (rk1 : CConfig S T → Nat) (hdec1 : ∀ c d, CStep G1 c d → rk1 d < rk1 c) (fuel : Nat)
+    (hf : satBound b (rk1 (projL ((mulRaw G1 G2).start, []))) + G1.rules.length * G2.rules.length + 1 ≤ fuel) :
+    ∃ G, cleanFixed (mulRaw G1 G2) fuel = .ok G :=
+  mul_clean_terminates G1 G2 hag b hb hr1 rk1 hdec1 fuel hf
+
+/-- **the product of two size-bounded grammars, total correctness**: both constructors return
+    (`C13_size_total`), and with `fuel' ≥ satBound b (k1 + 1) + |rules1|·|rules2| + 1` so does
+    `g1 * g2`; it reports `request` and contains exactly the programs common to both. -/
+theorem C13_product_size_total (dsl : Dsl) (request : Ty) (hd : noUnknownDsl dsl request = true) (k1 k2 : Nat) (nG : Int)
+    (fuel : Nat) (g1 g2 : TTG Ctx (Nat × Nat)) (h1 : sizeConstraint dsl request k1 nG true true fuel = .ok g1)
+    (h2 : sizeConstraint dsl request k2 nG true true fuel = .ok g2) (fuel' : Nat)
+    (hf : satBound (request.arguments.length + dsl.prims.length) (k1 + 1) + g1.G.rules.length * g2.G.rules.length + 1 ≤ fuel') :
+    ∃ g, mulTTG g1 g2 fuel' = .ok g ∧ g.typeRequest = request ∧
+      ∀ t, PS.G.contains g.G t = (PS.G.contains g1.G t && PS.G.contains g2.G t) := by
+  have h1' := h1
+  have h2' := h2
+  unfold sizeConstraint at h1 h2
+  cases s1 : saturationTable (sizeBuilder dsl nG k1 true) dsl.prims request true fuel with
+  | none => simp [s1] at h1
+  | some G01 =>
+    simp only [s1] at h1
+    cases c1 : clean G01 fuel with
+    | ok G1 =>
+      simp only [c1, Res.ok.injEq] at h1
+      cases s2 : saturationTable (sizeBuilder dsl nG k2 true) dsl.prims request true fuel with
+      | none => simp [s2] at h2
+      | some G02 =>
+        simp only [s2] at h2
+        cases c2 : clean G02 fuel with
+        | ok G2 =>
+          simp only [c2, Res.ok.injEq] at h2
+          subst h1; subst h2
+          obtain ⟨m1, m2, m3⟩ := constructed_machine (sizeBuilder dsl nG k1 true) dsl request hd (sizeRank k1)
+            (size_rank dsl request nG k1 true) true fuel G01 G1 s1 c1
+          obtain ⟨_, u1, _⟩ := saturation_countHyps (sizeBuilder dsl nG k1 true) dsl request true fuel G01 hd s1
+          obtain ⟨_, u2, _⟩ := saturation_countHyps (sizeBuilder dsl nG k2 true) dsl request true fuel G02 hd s2
+          have t1 := clean_typedOK G01 G1 u1 fuel c1 (saturation_typedOK _ dsl.prims request true fuel G01 s1)
+          have t2 := clean_typedOK G02 G2 u2 fuel c2 (saturation_typedOK _ dsl.prims request true fuel G02 s2)
+          have hstart : sizeRank k1 (projL ((mulRaw G1 G2).start, [])) = k1 + 1 := by
+            have e1 : G1.start = (request.returns, ([], (0, 0))) := by
+              rw [clean_start G01 G1 fuel c1, (saturationTable_spec _ dsl.prims request true fuel G01 s1).1]; rfl
+            simp [sizeRank, projL, mulRaw, e1]
+          obtain ⟨G, hG⟩ := C13_product_terminates G1 G2 (argsAgree_of_typed G1 G2 t1 t2) _ m2 m3 (sizeRank k1) m1 fuel'
+            (by rw [hstart]; exact hf)
+          refine ⟨⟨G, request⟩, ?_, rfl, ?_⟩
+          · unfold mulTTG; simp only; rw [hG]
+          · intro t
+            exact C13_product_constructed _ _ dsl dsl request hd fuel fuel G01 G1 G02 G2 s1 c1 s2 c2 hd fuel' G hG t
+        | fuel => simp [c2] at h2
+        | keyError => simp [c2] at h2
+    | fuel => simp [c1] at h1
+    | keyError => simp [c1] at h1
 
 end PS.T
